@@ -15,15 +15,32 @@ PROPS = {
 PROPS["C07"] = {
     "modules": ["Hertz.Props.C07"],
     "rule": "Every string of <=7 (quick) / <=9 (thorough) tokens over {/ . a %2e %2f % \\} through normalizePath and CleanPath, paths of every length 90..160 (and up to 400) around CleanPath's 128-byte stack buffer behind six prefixes that need rewriting, "
-            "plus random longer paths built from a segment vocabulary (.., ., %2e%2E, %2f, %252e, ..., random) with mutations.",
+            "plus random longer paths built from a segment vocabulary (.., ., %2e%2E, %2f, %252e, ..., random) with mutations. "
+            "File-system side: the stock FS.PathRewrite functions (NewVHostPathRewriter(n), NewPathSlashesStripper(n)) on a request context for "
+            "every Host header of <=3 tokens over {. a / %2e %2f % \\ @} x every request target of <=3 (thorough 4) tokens, plus a vocabulary of "
+            "hostile hosts (.., ., %2e%2e, userinfo, ports, NUL, encoded slashes) x targets (origin and absolute form); the REAL fsHandler "
+            "(FS{Root, IndexNames, GenerateIndexPages, PathRewrite}.NewRequestHandler, one recycled RequestContext per handler) over a directory "
+            "tree on disk whose root has recognisable files next to and above it, for rewriter {none, stripper 1-2, vhost 0-2} x index mode "
+            "{index file, generated listing, both, none}: which file's bytes / which directory's listing came back; and the handler behind an "
+            "application rewriter returning every string of <=5 (6) tokens over {/ . .. a f x NUL}.",
     "exhaustive_note": "all token strings up to the stated length are enumerated completely (1.0M strings in quick)",
     "level_text": "Containment (leading slash, no '..' segment, no inner empty or '.' segment) proved in Lean for the model of normalizePath "
                   "for every byte string, including termination of the /../ loop; the model is compared with the Go function on ~1M "
                   "exhaustively enumerated strings per run, and the implementation's output is checked against the stack-machine reference "
-                  "and the containment predicate on every case. CleanPath: model compared and predicate checked per case (theorem open).",
+                  "and the containment predicate on every case. CleanPath: model compared and predicate checked per case (theorem open). "
+                  "File-system side: model of the path pipeline of pkg/app/fs.go (rewriters, stripTrailingSlashes, NUL test, /../ guard, os.Open of "
+                  "root+path over an abstract tree with the kernel's component-wise resolution); proved for every Host header, request target, strip "
+                  "count and tree: the stock rewriters never panic, the rewritten path and ctx.Path() afterwards are contained, what is appended to "
+                  "FS.Root is empty or contained, and every file or listing served lies inside the root (serve_inside_root); the same for an arbitrary "
+                  "contract-abiding custom rewriter is false of the code (custom_rewrite_inside_fails_at, known finding) and proved under the "
+                  "excluding hypothesis. The model is compared with the real handler per case and 'served from inside the root' is evaluated on "
+                  "what the real handler returned; the source skeletons of the mirrored functions are regenerated and pinned (model_matches_gen_C07).",
     "level_note": "Trusted: Lean kernel, table translator (Hex2intTable), harness/driver. Not proved: equality with the stack reference "
-                  "(checked per case), CleanPath containment (checked per case). Windows separator branch not modelled.",
-    "assumptions": ["unix build (filepath.Separator == '/')"],
+                  "(checked per case), CleanPath containment (checked per case). Windows separator branch not modelled. File-system side: the OS is "
+                  "modelled as a tree of plain files and directories (no symlinks, no permissions); compression, byte ranges and cache expiry are off "
+                  "(C08); FS.Root is a plain directory name below the base the harness creates.",
+    "assumptions": ["unix build (filepath.Separator == '/')", "no symbolic links below FS.Root", "FS.IndexNames have no '..' component"],
+    "timeout": {"quick": 300, "thorough": 3000},
 }
 
 _H1_NOTE = ("Trusted: Lean kernel; translator for byte tables and header-name constants; harness (scripted net.Conn behind the real "
